@@ -51,6 +51,14 @@ def check_run(archs, threads, fmt, res, s):
     if len(blocks) != n:
         probs.append(('block-count:%s' % tag, 'expected %d blocks, got %d; stdout tail %r' % (n, len(blocks), res.stdout[-300:])))
         return probs
+    # the blocks are, as a multiset, the blocks each target yields when it is the only line of the targets file
+    alone = []
+    for i, a in enumerate(archs):
+        sb = MT.split_text(MT.run_single(a, i, 'text', None, via_targets_file=True).stdout)
+        alone.append(sb[0] if len(sb) == 1 else None)
+    if None not in alone and sorted(alone) != sorted(blocks):
+        odd = [b for b in blocks if b not in alone]
+        probs.append(('block-differs-from-single-target-run:%s' % tag, 'blocks not produced by any target alone: %r' % [b[:400] for b in odd[:2]]))
     seen = {}
     for b in blocks:
         pos = MT.block_host(b)
